@@ -228,7 +228,7 @@ pub fn run(ctx: &Ctx, id: &str) -> i32 {
         report.rule = "every public operation {new, configure, read_card, begin, commit, cancel} is first run fault-free to number its terminal->client packets (handshake, acks, intermediate packets, clean-up exchanges included); then re-run with one fault at every position x kind {close, garbage, NACK, foreign control field, silence, wrong serial (system-info reply)} and with refused connection attempts; all pairs of faults for the shorter operations and sampled pairs/triples otherwise; each followed by a further operation. Also: a terminal reporting the serial in the other letter case, and 1 ms..1 s delays between and inside packets (non-faults: the operation must succeed without reconnecting). Oracle: connection checker R1-R4 (DESIGN D.4) over the per-connection event log. Non-trivial = every faulty run; single faults are a duplicate-free enumeration, multi-fault runs hashed.".into();
         report.assumptions = vec!["after injecting a fault the simulated terminal is passive on that connection, so every byte recorded there afterwards was written by the client".into(), "silence during the handshake is bounded by the fix of finding D6 (otherwise those runs end at the watchdog and are attributed to C10)".into()];
     } else {
-        report.rule = "every public operation x (a) a one-shot silence at every terminal->client packet position (fault-free numbering), (b) a persistent silence at every distinct (exchange kind, packet) point incl. the handshake, (c) a connect that never resolves / always never resolves / is always refused; read_card_timeout 0..255 exhaustively with a terminal that stays silent for exactly its own read-card time-out and then answers 'abort 6C' 100 ms later (must be waited for: NoCardPresented); configuration extremes (password 0/999999, amount 0/10^12-1, transactions_max_num 0/usize::MAX, terminal id empty/non-numeric/8 digits, currency 0/9999). Time is tokio's paused clock. Oracle: every call returns before one virtual day and does not panic. Duplicate-free enumeration.".into();
+        report.rule = "every public operation x (a) a one-shot silence at every terminal->client packet position (fault-free numbering), (b) a persistent silence at every distinct (exchange kind, packet) point incl. the handshake, (c) a connect that never resolves / always never resolves / is always refused, (d) pairs: a one-shot silence followed by a second silence / close / garbage / connect stall on the retried attempt, and silence on a slow terminal; read_card_timeout 0..255 exhaustively with a terminal that stays silent for exactly its own read-card time-out and then answers 'abort 6C' 100 ms later (must be waited for: NoCardPresented); configuration extremes (password 0/999999, amount 0/10^12-1, transactions_max_num 0/usize::MAX, terminal id empty/non-numeric/8 digits, currency 0/9999). Time is tokio's paused clock. Oracle: every call returns before one virtual day and does not panic. Duplicate-free enumeration.".into();
         report.assumptions = vec!["watchdog = tokio::time::timeout of one virtual day around every public call; it can only fire when the client is parked without a timer of its own or its own timers exceed a day".into(), "only a collapsed (too short) read-card timeout is judged; the effective timeout is recorded".into()];
     }
     let base_cfg = ClientCfg { max_tx: 1, currency: 826, password: 471199, pre_amount: 3100, serial: "17fd1E3c".into(), ..ClientCfg::default() };
@@ -405,6 +405,31 @@ pub fn run(ctx: &Ctx, id: &str) -> i32 {
                     r.note("read_card_unanswered_virtual_seconds", &format!("rc={rc:03}:{}", ms / 1000));
                 }
             }
+            // (d) two stalls in one call: every pair (one-shot at p, one-shot at q > p of the retried attempt), and
+            //     a one-shot stall followed by another fault kind on the retry
+            for (j, (op, p)) in jobs.iter().enumerate() {
+                if j % threads != shard {
+                    continue;
+                }
+                let np = points[op].len();
+                let qs: Vec<usize> = if quick { vec![*p + 1, *p + 2, *p + np] } else { (*p + 1..=*p + np + 4).collect() };
+                for q in qs {
+                    for kind2 in [FaultKind::Silence, FaultKind::Close, FaultKind::Garbage, FaultKind::ConnectStall] {
+                        let (mut sc, idx) = skeleton(*op, &base_cfg);
+                        sc.plan.faults.push(FaultSpec { call: idx, at: At::Tx(*p), kind: FaultKind::Silence });
+                        let at2 = if kind2 == FaultKind::ConnectStall { At::Connect(if *op == Op::New { 1 } else { 0 }) } else { At::Tx(q) };
+                        sc.plan.faults.push(FaultSpec { call: idx, at: at2, kind: kind2 });
+                        run_and_judge(r, id, &sc, idx, &schema, &format!("{op:?}: silence at packet {p}, then {kind2:?} at {q}"), true);
+                        r.count("double_stall_runs", 1);
+                    }
+                }
+                // a stall while the terminal is also slow (delays are not faults)
+                let (mut sc, idx) = skeleton(*op, &base_cfg);
+                sc.plan.delay_ms = 900;
+                sc.plan.split_delay_ms = Some(700);
+                sc.plan.faults.push(FaultSpec { call: idx, at: At::Tx(*p), kind: FaultKind::Silence });
+                run_and_judge(r, id, &sc, idx, &schema, &format!("{op:?}: slow terminal + silence at packet {p}"), true);
+            }
             // configuration extremes
             if shard == 1 % threads {
                 let extremes: Vec<ClientCfg> = vec![
@@ -427,9 +452,14 @@ pub fn run(ctx: &Ctx, id: &str) -> i32 {
                     for op in OPS {
                         let (mut sc, idx) = skeleton(op, &cfg);
                         run_and_judge(r, id, &sc, idx, &schema, &format!("{op:?} with configuration {cfg:?}, no fault"), true);
-                        sc.plan.faults.push(FaultSpec { call: idx, at: At::Tx(1), kind: FaultKind::Silence });
-                        run_and_judge(r, id, &sc, idx, &schema, &format!("{op:?} with configuration {cfg:?}, silence at packet 1"), true);
-                        r.count("configuration_extreme_runs", 2);
+                        let stall_positions: Vec<usize> = if quick { vec![1, 3] } else { (0..points[&op].len()).collect() };
+                        for sp in stall_positions {
+                            let (mut sc, idx) = skeleton(op, &cfg);
+                            sc.plan.faults.push(FaultSpec { call: idx, at: At::Tx(sp), kind: FaultKind::Silence });
+                            run_and_judge(r, id, &sc, idx, &schema, &format!("{op:?} with configuration {cfg:?}, silence at packet {sp}"), true);
+                            r.count("configuration_extreme_runs", 1);
+                        }
+                        r.count("configuration_extreme_runs", 1);
                     }
                 }
             }
